@@ -1,6 +1,9 @@
 (* C06 - a ResendRequest is answered completely, in order and without side effects.
    Theorems only (proofs in AF.Lemmas.ResendL) about the model Fix/Resend.v of
-   AsyncFIXConnection._process_resend and what it calls.
+   AsyncFIXConnection._process_resend and what it calls, AS REPAIRED by
+   fixes/D12-resend-keeps-journal.patch (the handler no longer rewinds / truncates the outbound
+   journal, send_msg does not journal PossDupFlag=Y frames and SequenceReset-GapFill frames, and a
+   BeginSeqNo below 1 is read as 1).
 
    The property for one request (bs, es = texts of tags 7 and 16) with replay filter f in state s is
    the predicate  resend_correct f s bs es  (Lemmas/ResendL.v):
@@ -9,39 +12,97 @@
      the original SendingTime and the body otherwise identical for every journaled application
      message the filter accepts; one GapFill(seq = first, NewSeqNo = next) per maximal run of other
      numbers - session-level, declined, missing; hence no session-level message retransmitted);
-     nothing is written for a request that must not be answered; journaled messages outside the
-     range, next_num_out (live and stored) and the connection state are what they were.
+     nothing is written for a request that must not be answered; the WHOLE outbound journal (inside
+     and outside the range), next_num_out (live and stored) and the connection state are what they were.
    FULL STATEMENT (what C06 asks):   forall f s bs es, resend_correct f s bs es.
-   It does not hold of the code.  Below: the part that holds, with exactly the negations of the
-   known-finding class predicates as hypotheses, and one refutation per class. *)
+   The "no side effects on journal and counters" half now holds unconditionally (C06_no_side_effects);
+   the reply / state half holds outside five classes; one refutation per remaining class. *)
 From Coq Require Import ZArith NArith List Bool.
 From AF Require Import Base.Sx Py.Str Fix.Resend Lemmas.ResendL.
 From AFGen Require Import GenEnums.
 Import ListNotations.
 Open Scope Z_scope.
 
-(* The part that holds, unbounded in the journal: for every journal with unique keys below the
-   counter (journal_ok: the C05/C13 invariants), every replay filter, both start states, every
-   readable request outside the six classes the property holds in full. *)
-Theorem C06_reply_chain_partial : forall f s bs es b e0,
-  py_int bs = Some b -> py_int es = Some e0 ->
+(* UNCONDITIONAL (every state, journal, request - readable or not -, filter): the handler never
+   changes the outbound journal, next_num_out or the stored counter; the exception that leaves it is
+   never DuplicateSeqNoError / FIXConnectionError / EncodingError; without an exception the state ends
+   ACTIVE (stays RESENDREQ_AWAITING), with one it is left RESENDREQ_HANDLING (stays AWAITING). *)
+Theorem C06_no_side_effects : forall f s bs es,
+  let (s', x) := process_resend f bs es s in
+  rows s' = rows s /\ nout s' = nout s /\ sout s' = sout s
+  /\ allowed_exc x
+  /\ cstate s' = (if cstate s =? ST_AWAITING then ST_AWAITING
+                  else match x with None => ST_ACTIVE | Some _ => ST_HANDLING end).
+Proof. exact resend_general. Qed.
+Print Assumptions C06_no_side_effects.
+
+(* every frame the handler writes, whatever the request, carries a MsgSeqNum of at least 1 *)
+Theorem C06_no_nonpositive_numbers : forall f s bs es,
+  exists W, wire (fst (process_resend f bs es s)) = wire s ++ W /\ Forall (fun fr => 1 <= r_seq fr) W.
+Proof. exact resend_wire_positive. Qed.
+Print Assumptions C06_no_nonpositive_numbers.
+
+(* a request with BeginSeqNo <= 0 is handled exactly like BeginSeqNo = 1: same frames, same state
+   and counters afterwards, and it is the same request for the property (was C06-begin-nonpositive) *)
+Theorem C06_begin_nonpositive_as_one : forall f s bs es b,
+  py_int bs = Some b -> b < 1 ->
+  process_resend f (Some bs) es s = process_resend f (dec 1) es s
+  /\ requested_range s (Some bs) es = requested_range s (dec 1) es
+  /\ (resend_correct f s (Some bs) es <-> resend_correct f s (dec 1) es).
+Proof. exact begin_nonpositive_as_one. Qed.
+Print Assumptions C06_begin_nonpositive_as_one.
+
+Theorem C06_begin_nonpositive_example :
+  resend_correct w_all w_small (dec 0) (dec 0) /\ resend_correct w_all w_small (dec (-3)) (dec 0)
+  /\ (let (s', x) := process_resend w_all (dec (-3)) (dec 0) w_small in
+      x = None /\ map r_seq (wire s') = [1; 2] /\ map r_type (wire s') = [MT_SEQUENCERESET; [68%N]]
+      /\ cstate s' = ST_ACTIVE /\ nout s' = 3).
+Proof. exact begin_nonpositive_example. Qed.
+Print Assumptions C06_begin_nonpositive_example.
+
+(* The reply: unbounded in the journal; every journal with unique keys below the counter
+   (journal_ok: C05/C13 invariants), every replay filter, both start states, every readable request
+   - any BeginSeqNo, also zero and negative: b is the number the code uses, max(1, BeginSeqNo) -
+   outside the five classes: the property holds in full. *)
+Theorem C06_reply_chain_partial : forall f s bs es b0 e0,
+  py_int bs = Some b0 -> py_int es = Some e0 ->
+  let b := clamp1 b0 in
   (cstate s = ST_ACTIVE \/ cstate s = ST_AWAITING) ->
   journal_ok s -> NoDup (map r_seq (rows s)) ->
   k_unparsable (Some bs) (Some es) = false ->          (* tags 7/16 readable, within 64 bits *)
-  k_begin_nonpositive b = false ->                     (* 1 <= BeginSeqNo *)
   k_begin_beyond s b = false ->                        (* BeginSeqNo <= next_num_out *)
   k_bounded_end s b e0 = false ->                      (* EndSeqNo = 0 or >= the last sent number *)
-  k_leftover_copy f s b e0 = false ->                  (* no replayed row in range is a PossDup copy *)
+  k_row_carries_possdup_tags f s b e0 = false ->       (* no replayed row in range was journaled with tag 43/122 *)
   k_hole_before_replayed f s b e0 = false ->           (* no replayed row in range follows a missing number *)
   resend_correct f s (Some bs) (Some es).
 Proof. exact resend_partial_classes. Qed.
 Print Assumptions C06_reply_chain_partial.
 
-(* the same for pristine journals (original sends numbered 1..n, a suffix may be missing), every
-   BeginSeqNo in [1, next_num_out], EndSeqNo = 0 *)
+(* ... and the state it leaves satisfies the same hypotheses: any further request - the same range
+   again, or another one - is answered correctly too (was C06_second_request_refuted, D12) *)
+Theorem C06_repeated_requests : forall f s bs es b0 e0 f2 bs2 es2 c0 e2,
+  py_int bs = Some b0 -> py_int es = Some e0 ->
+  let b := clamp1 b0 in
+  (cstate s = ST_ACTIVE \/ cstate s = ST_AWAITING) ->
+  journal_ok s -> NoDup (map r_seq (rows s)) ->
+  k_unparsable (Some bs) (Some es) = false ->
+  k_begin_beyond s b = false -> k_bounded_end s b e0 = false ->
+  k_row_carries_possdup_tags f s b e0 = false -> k_hole_before_replayed f s b e0 = false ->
+  let s1 := fst (process_resend f (Some bs) (Some es) s) in
+  py_int bs2 = Some c0 -> py_int es2 = Some e2 ->
+  let b2 := clamp1 c0 in
+  k_unparsable (Some bs2) (Some es2) = false ->
+  k_begin_beyond s b2 = false -> k_bounded_end s b2 e2 = false ->
+  k_row_carries_possdup_tags f2 s b2 e2 = false -> k_hole_before_replayed f2 s b2 e2 = false ->
+  resend_correct f2 s1 (Some bs2) (Some es2).
+Proof. exact resend_repeatable. Qed.
+Print Assumptions C06_repeated_requests.
+
+(* pristine journals (original sends numbered 1..n, a suffix may be missing), every BeginSeqNo up to
+   next_num_out (also zero and negative), EndSeqNo = 0 *)
 Theorem C06_reply_chain_pristine : forall f s bs es b,
   py_int bs = Some b -> py_int es = Some 0 ->
-  (cstate s = ST_ACTIVE \/ cstate s = ST_AWAITING) -> pristine s -> 1 <= b <= nout s ->
+  (cstate s = ST_ACTIVE \/ cstate s = ST_AWAITING) -> pristine s -> b <= nout s ->
   resend_correct f s (Some bs) (Some es).
 Proof. exact pristine_partial. Qed.
 Print Assumptions C06_reply_chain_pristine.
@@ -52,69 +113,46 @@ Theorem C06_no_session_retransmit : forall J f lim a c W, chain J f lim a c W ->
 Proof. exact chain_frames. Qed.
 Print Assumptions C06_no_session_retransmit.
 
-(* the row hypothesis of journal_ok / pristine is an invariant of journals written by send_msg *)
+(* the row hypothesis of journal_ok / pristine is an invariant of journals written by send_msg,
+   and replies to a ResendRequest never reach the journal *)
 Theorem C06_sent_rows_wellformed : forall m s s',
-  send_msg m s = Ok s' -> exists fr, rows s' = rows s ++ [fr] /\ codec_row fr = true.
+  send_msg m s = Ok s' ->
+  rows s' = rows s \/ exists fr, rows s' = rows s ++ [fr] /\ codec_row fr = true.
 Proof. exact send_msg_frame_codec_row. Qed.
 Print Assumptions C06_sent_rows_wellformed.
 
-(* For EVERY journal with unique keys, every request and every filter: the only exceptions that can
-   leave the handler are AssertionError, DuplicatedTagError, TagNotFoundError, ValueError and
-   OverflowError - in particular the journal write of a gap fill / retransmission never raises
-   DuplicateSeqNoError (rows >= BeginSeqNo were deleted first and the numbers sent are strictly
-   increasing), the state gates of send_msg never refuse and the encoder always has a number; and
-   whenever an exception is swallowed the connection is left in RESENDREQ_HANDLING (in
-   RESENDREQ_AWAITING if it was awaiting a resend itself). *)
-Theorem C06_abort_shape : forall f s bs es,
-  NoDup (map r_seq (rows s)) ->
-  let (s', x) := process_resend f bs es s in
-  allowed_exc x
-  /\ (x <> None -> cstate s' = (if cstate s =? ST_AWAITING then ST_AWAITING else ST_HANDLING)).
-Proof. exact resend_exceptions. Qed.
-Print Assumptions C06_abort_shape.
+(* the concrete second request of the old D12 witness, now answered like the first *)
+Theorem C06_second_request_ok :
+  pristine w_first /\ resend_correct w_all w_first (dec 2) (dec 0)
+  /\ rows w_second = rows w_first /\ nout w_second = 4
+  /\ resend_correct w_all w_second (dec 2) (dec 0)
+  /\ map r_seq (wire (fst (process_resend w_all (dec 2) (dec 0) w_second))) = [2; 3; 2; 3].
+Proof. exact second_request_ok. Qed.
+Print Assumptions C06_second_request_ok.
 
-(* ---- refutations of the full statement, one per known-finding class (each witness is replayed on
-   the implementation by harness/c06.py; classes_of = the six class predicates in the order above) *)
+(* ---- refutations of the full statement, one per remaining known-finding class (each witness is
+   replayed on the implementation by harness/c06.py; classes_of = the five predicates in the order above) *)
 
-(* bounded EndSeqNo: the reply gap-fills past EndSeqNo and the journal tail is deleted (D12) *)
+(* bounded EndSeqNo: the reply gap-fills past EndSeqNo up to next_num_out (the journal is intact now) *)
 Theorem C06_bounded_end_refuted :
   pristine w_bounded
-  /\ classes_of w_all w_bounded (dec 2) (dec 2) 2 2 = (false, false, false, true, false, false)
-  /\ ~ resend_correct w_all w_bounded (dec 2) (dec 2).
+  /\ classes_of w_all w_bounded (dec 2) (dec 2) 2 2 = (false, false, true, false, false)
+  /\ ~ resend_correct w_all w_bounded (dec 2) (dec 2)
+  /\ (let (s', x) := process_resend w_all (dec 2) (dec 2) w_bounded in
+      x = None /\ map r_seq (wire s') = [2; 3]
+      /\ map (fun r => get_tag T_NewSeqNo (r_body r)) (wire s') = [None; Some [53%N]]).
 Proof. exact bounded_end_refuted. Qed.
 Print Assumptions C06_bounded_end_refuted.
 
-(* a second request over an already replayed range aborts, leaving the counter rewound (D12) *)
-Theorem C06_second_request_refuted :
-  pristine w_first /\ resend_correct w_all w_first (dec 2) (dec 0)
-  /\ journal_ok w_second /\ cstate w_second = ST_ACTIVE
-  /\ classes_of w_all w_second (dec 2) (dec 0) 2 0 = (false, false, false, false, true, false)
-  /\ ~ resend_correct w_all w_second (dec 2) (dec 0)
-  /\ (let (s', x) := process_resend w_all (dec 2) (dec 0) w_second in
-      x = Some EDuplicatedTag /\ wire s' = wire w_second /\ nout s' = 2 /\ nout w_second = 4
-      /\ map r_seq (rows s') = [1] /\ cstate s' = ST_HANDLING).
-Proof. exact second_request_refuted. Qed.
-Print Assumptions C06_second_request_refuted.
-
-(* BeginSeqNo beyond next_num_out: counter advanced, state stuck (D12) *)
+(* BeginSeqNo beyond next_num_out: AssertionError, state stuck (counters no longer moved) *)
 Theorem C06_begin_beyond_refuted :
   pristine w_small
-  /\ classes_of w_all w_small (dec 5) (dec 0) 5 0 = (false, false, true, false, false, false)
+  /\ classes_of w_all w_small (dec 5) (dec 0) 5 0 = (false, true, false, false, false)
   /\ ~ resend_correct w_all w_small (dec 5) (dec 0)
   /\ (let (s', x) := process_resend w_all (dec 5) (dec 0) w_small in
-      x = Some EAssertion /\ nout s' = 5 /\ sout s' = 4 /\ cstate s' = ST_HANDLING).
+      x = Some EAssertion /\ nout s' = 3 /\ sout s' = 2 /\ wire s' = [] /\ cstate s' = ST_HANDLING).
 Proof. exact begin_beyond_refuted. Qed.
 Print Assumptions C06_begin_beyond_refuted.
-
-(* BeginSeqNo <= 0: state stuck in RESENDREQ_HANDLING (D12) *)
-Theorem C06_begin_nonpositive_refuted :
-  pristine w_small
-  /\ classes_of w_all w_small (dec 0) (dec 0) 0 0 = (false, true, false, false, false, false)
-  /\ ~ resend_correct w_all w_small (dec 0) (dec 0)
-  /\ (let (s', x) := process_resend w_all (dec 0) (dec 0) w_small in
-      x = Some EAssertion /\ nout s' = 3 /\ rows s' = rows w_small /\ cstate s' = ST_HANDLING).
-Proof. exact begin_nonpositive_refuted. Qed.
-Print Assumptions C06_begin_nonpositive_refuted.
 
 (* unreadable BeginSeqNo: state stuck *)
 Theorem C06_unparsable_refuted :
@@ -128,36 +166,32 @@ Print Assumptions C06_unparsable_refuted.
 (* a hole between two application rows is not gap-filled: rows {1,2,4,5} -> reply 2,4,5 (D21) *)
 Theorem C06_hole_refuted :
   journal_ok w_hole /\ NoDup (map r_seq (rows w_hole))
-  /\ classes_of w_all w_hole (dec 2) (dec 0) 2 0 = (false, false, false, false, false, true)
+  /\ classes_of w_all w_hole (dec 2) (dec 0) 2 0 = (false, false, false, false, true)
   /\ ~ resend_correct w_all w_hole (dec 2) (dec 0)
   /\ (let (s', x) := process_resend w_all (dec 2) (dec 0) w_hole in
       x = None /\ map r_seq (wire s') = [2; 4; 5] /\ map r_type (wire s') = [[68%N]; [68%N]; [68%N]]).
 Proof. exact hole_refuted. Qed.
 Print Assumptions C06_hole_refuted.
 
-(* "journaled messages outside the range are what they were" holds in the pristine case; the rows
-   INSIDE the range are all replaced (copies with tags 43/122 and a new SendingTime, one gap-fill row
-   per run, the rest of each run deleted).  The property text does not protect them, so this is no
-   breach by itself - it is the cause of C06_second_request_refuted. *)
-Theorem C06_in_range_rows_replaced :
-  pristine w_mixed /\ resend_correct w_all w_mixed (dec 2) (dec 0)
-  /\ (let s' := fst (process_resend w_all (dec 2) (dec 0) w_mixed) in
-      In w_logon (rows s') /\ ~ In (w_app 2) (rows s') /\ ~ In (w_hb 3) (rows s') /\ ~ In (w_hb 4) (rows s')
-      /\ map r_seq (rows s') = [1; 2; 3; 5]
-      /\ map (fun r => has_tag T_PossDupFlag (r_body r)) (rows s') = [false; true; false; true]
-      /\ map r_type (rows s') = [[65%N]; [68%N]; MT_SEQUENCERESET; [68%N]]).
-Proof. exact in_range_rows_replaced. Qed.
-Print Assumptions C06_in_range_rows_replaced.
+(* an application message journaled with tag 43 (PossDupFlag=N) in its body cannot be retransmitted *)
+Theorem C06_possdup_tag_refuted :
+  journal_ok w_tagged /\ NoDup (map r_seq (rows w_tagged))
+  /\ classes_of w_all w_tagged (dec 2) (dec 0) 2 0 = (false, false, false, true, false)
+  /\ ~ resend_correct w_all w_tagged (dec 2) (dec 0)
+  /\ (let (s', x) := process_resend w_all (dec 2) (dec 0) w_tagged in
+      x = Some EDuplicatedTag /\ wire s' = [] /\ cstate s' = ST_HANDLING).
+Proof. exact possdup_tag_refuted. Qed.
+Print Assumptions C06_possdup_tag_refuted.
 
 (* non-vacuity: a journal with application, session, SequenceReset and declined rows and a missing
    suffix, in RESENDREQ_AWAITING, meets every hypothesis of C06_reply_chain_partial *)
 Example C06_nonvacuous :
   journal_ok w_rich /\ NoDup (map r_seq (rows w_rich)) /\ cstate w_rich = ST_AWAITING
-  /\ classes_of w_filter w_rich (dec 2) (dec 0) 2 0 = (false, false, false, false, false, false)
+  /\ classes_of w_filter w_rich (dec 2) (dec 0) 2 0 = (false, false, false, false, false)
   /\ (let s' := fst (process_resend w_filter (dec 2) (dec 0) w_rich) in
       map r_seq (wire s') = [2; 3; 5; 6] /\ map r_type (wire s') = [[68%N]; MT_SEQUENCERESET; [68%N]; MT_SEQUENCERESET]
       /\ map (fun r => get_tag T_NewSeqNo (r_body r)) (wire s') = [None; Some [53%N]; None; Some [57%N]]
-      /\ nout s' = 9 /\ cstate s' = ST_AWAITING).
+      /\ rows s' = rows w_rich /\ nout s' = 9 /\ cstate s' = ST_AWAITING).
 Proof. exact nonvacuous. Qed.
 Print Assumptions C06_nonvacuous.
 
